@@ -1,156 +1,43 @@
 /-
   C17 — delivery-independent input; files stay separate; the input context is exact.
+
+  `Jawk/Props/C17Steps.lean`: chunking invisible, stdin = file, per-byte location tracking, ordinals exact for
+  whole runs, files concatenate.  This file (helper `Jawk/Lemmas/Locality.lean`): the closed form of line/column,
+  the tiling of consecutive ranges, what a range contains — and the precise statement of finding F11.
 -/
-import Jawk.Lemmas.RunSpec
-import Jawk.Model.Run
-import Jawk.Props.C16
+import Jawk.Props.C17Steps
+import Jawk.Lemmas.Locality
 namespace Jawk.C17
-open Jawk Reader
+open Jawk Loc
 
-variable (orc : Oracles)
+/-- after pulling `n` items of a source, the reader's location is: line = 1 + number of LF among the bytes pulled,
+column = 1 + number of bytes since the last LF, file name = the source's — an invariant of every parser action -/
+theorem location_is_lineCol {items : List RItem} {name : Option Str} {r : Reader} (h : LocInv items name r) :
+    r.rest = items.drop r.pulled ∧ r.pulled ≤ items.length ∧ r.loc.name = name ∧
+    r.loc.line = 1 + (itemBytes (items.take r.pulled)).count 10 ∧
+    r.loc.col = 1 + ((itemBytes (items.take r.pulled)).reverse.takeWhile (· ≠ 10)).length :=
+  Loc.location_is_lineCol h
 
-/-- The run only sees `bytesOf events`: two deliveries of the same bytes (any chunking, any
-`Interrupted` results) give the same run — same rows, same reports, same result. -/
-theorem chunking_invisible (c : Cfg) (name : Option Str) (ev₁ ev₂ : List ReadEvent) (wOut wErr : Writer)
-    (h₁ : C16.CleanEvents ev₁) (h₂ : C16.CleanEvents ev₂)
-    (hsame : C16.flattenEvents ev₁ = C16.flattenEvents ev₂) :
-    run orc c [⟨name, bytesOf ev₁⟩] wOut wErr = run orc c [⟨name, bytesOf ev₂⟩] wOut wErr := by
-  rw [C16.interrupted_and_short_reads_invisible ev₁ h₁, C16.interrupted_and_short_reads_invisible ev₂ h₂, hsame]
+theorem location_invariant (items : List RItem) (name : Option Str) :
+    LocInv items name (Reader.ofItems items name) ∧
+    ∀ r, LocInv items name r → LocInv items name r.nextJson.2 :=
+  ⟨locInv_ofItems items name, fun _ h => nextJson_locInv h⟩
 
-/-- stdin and a file holding the same bytes differ only in the reader's name (`&file-name`) -/
-theorem stdin_or_file_same_items (bs : List Byte) (n : Str) :
-    (Reader.ofBytes bs none).rest = (Reader.ofBytes bs (some n)).rest ∧
-    (Reader.ofBytes bs none).loc.line = (Reader.ofBytes bs (some n)).loc.line ∧
-    (Reader.ofBytes bs none).loc.col = (Reader.ofBytes bs (some n)).loc.col := ⟨rfl, rfl, rfl⟩
+/-- consecutive ranges are contiguous (`ended k = started (k+1)`) and the first starts at `name:1:1`, when no
+malformed region and no dropped scalar lies between the values -/
+theorem ranges_tile (c : Cfg) (src : Source) (idx : Nat)
+    (h : AllRows c (src.items.length + 2) (Reader.ofItems src.items src.name)) :
+    let cs := RunSpec.ctxsOf c (src.items.length + 2) (Reader.ofItems src.items src.name) 0 idx
+    (∀ k (hk : k + 1 < cs.length), ∃ a b, cs[k].ictx = some a ∧ cs[k + 1].ictx = some b ∧ a.endLoc = b.startLoc) ∧
+    (∀ hk : 0 < cs.length, ∃ a, cs[0].ictx = some a ∧ a.startLoc = { name := src.name, line := 1, col := 1 }) :=
+  ranges_tile_source c src idx h
 
-/-! ### Line / column bookkeeping -/
-
-/-- line = 1 + number of LF consumed; column = 1 + bytes consumed since the last LF -/
-def lineColStep (lc : Nat × Nat) (b : Byte) : Nat × Nat :=
-  if b = 10 then (lc.1 + 1, 1) else (lc.1, lc.2 + 1)
-
-def lineCol (consumed : List Byte) : Nat × Nat := consumed.foldl lineColStep (1, 1)
-
-/-- the reader's location tracks the consumed bytes -/
-def Tracks (r : Reader) (consumed : List Byte) : Prop := (r.loc.line, r.loc.col) = lineCol consumed
-
-theorem tracks_initial (items : List RItem) (name : Option Str) : Tracks (Reader.ofItems items name) [] := rfl
-
-theorem next_tracks (r r' : Reader) (b : Byte) (consumed : List Byte) (h : Tracks r consumed)
-    (hn : Reader.next r = (.ok (some b), r')) : Tracks r' (consumed ++ [b]) := by
-  unfold Tracks lineCol at *
-  rw [List.foldl_append, ← h]
-  unfold Reader.next at hn
-  split at hn
-  · cases hn
-  · split at hn
-    · cases hn
-    · cases hn
-    · rename_i b' rest heq
-      simp only [Prod.mk.injEq, Except.ok.injEq, Option.some.injEq] at hn
-      obtain ⟨hb, hr⟩ := hn
-      subst hr hb
-      simp only [List.foldl_cons, List.foldl_nil, lineColStep]
-      split <;> simp_all
-
-/-- the name of the reader (the file name) never changes while reading -/
-theorem next_keeps_name (r r' : Reader) (x : Except PErr (Option Byte)) (hn : Reader.next r = (x, r')) :
-    r'.loc.name = r.loc.name := by
-  unfold Reader.next at hn
-  split at hn
-  · cases hn; rfl
-  · split at hn
-    · cases hn; rfl
-    · cases hn; rfl
-    · cases hn
-      split <;> rfl
-
-/-- the `pulled` counter counts exactly the items taken from the stream -/
-theorem next_pulled (r r' : Reader) (b : Byte) (hn : Reader.next r = (.ok (some b), r')) :
-    r'.pulled = r.pulled + 1 ∧ r.rest = .byte b :: r'.rest := by
-  unfold Reader.next at hn
-  split at hn
-  · cases hn
-  · split at hn
-    · cases hn
-    · cases hn
-    · rename_i b' rest heq
-      simp only [Prod.mk.injEq, Except.ok.injEq, Option.some.injEq] at hn
-      obtain ⟨hb, hr⟩ := hn
-      subst hr hb
-      exact ⟨rfl, heq⟩
-
-/-! ### Ordinals, file boundaries, contiguous ranges -/
-
-/-- The context handed to the pipeline for a value carries: `&index` = number of values
-processed so far in the run, `&index-in-file` = number processed so far in this file, the
-reader's location before the value as start and after it as end; after a `Continue` both
-ordinals grow by one and the next value's start is this value's end (ranges tile). -/
-theorem value_context_exact (c : Cfg) (p : Pipeline) (fuel : Nat) (r r' : Reader) (inFile : Nat)
-    (s : RunState) (v : JV) (ps : PState)
-    (hv : r.nextJson = (.ok (some v), r')) (hkeep : (c.onlyObjectsAndArrays && !v.isObjOrArr) = false)
-    (hp : process orc p.sink p.sinkLen p.cfgs s.sts s.out
-            { input := v, ictx := some { startLoc := r.loc, endLoc := r'.loc, fileIndex := inFile, index := s.index } }
-          = .ok (ps, .cont)) :
-    readLoop orc c p (fuel + 1) r inFile s =
-      readLoop orc c p fuel r' (inFile + 1) { s with sts := ps.sts, out := ps.w, index := s.index + 1 } := by
-  rw [readLoop]
-  simp [hv, hkeep, hp]
-
-/-- a top-level scalar skipped by `--only-objects-and-arrays` is not counted -/
-theorem skipped_scalar_not_counted (c : Cfg) (p : Pipeline) (fuel : Nat) (r r' : Reader) (inFile : Nat)
-    (s : RunState) (v : JV)
-    (hv : r.nextJson = (.ok (some v), r')) (hskip : (c.onlyObjectsAndArrays && !v.isObjOrArr) = true) :
-    readLoop orc c p (fuel + 1) r inFile s = readLoop orc c p fuel r' inFile s := by
-  rw [readLoop]
-  simp [hv, hskip]
-
-/-- every file is read by a fresh reader (so no value spans two files), named after the file,
-with `&index-in-file` restarting at 0, while `&index` continues -/
-theorem files_sequential (c : Cfg) (p : Pipeline) (src : Source) (rest : List Source) (s s' : RunState) (r' : Reader)
-    (h : readLoop orc c p (src.items.length + 2) (Reader.ofItems src.items src.name) 0 s = .ok (s', r', .cont)) :
-    readSources orc c p (src :: rest) s =
-      readSources orc c p rest { s' with pulled := s'.pulled ++ [r'.pulled] } := by
-  simp [readSources, h]
-
-theorem fresh_reader_per_file (src : Source) :
-    (Reader.ofItems src.items src.name).cur = none ∧ (Reader.ofItems src.items src.name).eof = false ∧
-    (Reader.ofItems src.items src.name).loc = { name := src.name, line := 1, col := 1 } ∧
-    (Reader.ofItems src.items src.name).rest = src.items := ⟨rfl, rfl, rfl, rfl⟩
-
-/-- `&file-name` is the name of the reader the value came from; the other selectors read the context -/
-theorem selectors_read_context (ic : InputCtx) :
-    ICtxKind.get .index ic = some (.num (.pos ic.index)) ∧
-    ICtxKind.get .indexInFile ic = some (.num (.pos ic.fileIndex)) ∧
-    ICtxKind.get .fileName ic = ic.startLoc.name.map JV.str ∧
-    ICtxKind.get .startLine ic = some (.num (.pos ic.startLoc.line)) ∧
-    ICtxKind.get .startChar ic = some (.num (.pos ic.startLoc.col)) ∧
-    ICtxKind.get .endLine ic = some (.num (.pos ic.endLoc.line)) ∧
-    ICtxKind.get .endChar ic = some (.num (.pos ic.endLoc.col)) := ⟨rfl, rfl, rfl, rfl, rfl, rfl, rfl⟩
-
-/-- non-vacuity / sanity: line and column of "ab\ncd" after 4 bytes is (2, 2) -/
-example : lineCol [97, 98, 10, 99] = (2, 2) := by decide
-
-
-/-! ### ordinals, for whole runs -/
-
-/-- `&index` is exact: the k-th row read in the run (all files together, skipped scalars and malformed regions
-not counted) carries index k -/
-theorem index_exact (c : Cfg) (sources : List Source) (k : Nat) (ctx : Ctx)
-    (h : (RunSpec.ctxsOfSources c sources 0)[k]? = some ctx) : ctx.ictx.map (·.index) = some k :=
-  RunSpec.index_exact c sources k ctx h
-
-/-- `&index-in-file` restarts at 0 in every file -/
-theorem index_in_file_restarts (c : Cfg) (src : Source) (idx k : Nat) (ctx : Ctx)
-    (h : (RunSpec.ctxsOf c (src.items.length + 2) (Reader.ofItems src.items src.name) 0 idx)[k]? = some ctx) :
-    ctx.ictx.map (·.fileIndex) = some k := RunSpec.fileIndex_restarts c src idx k ctx h
-
-/-- files are read one after the other: the rows of `f1 :: rest` are the rows of `f1` followed by the rows of
-`rest`, the run index running on — no value spans two files (each file gets a fresh reader) -/
-theorem files_concatenate (c : Cfg) (s1 : Source) (rest : List Source) (idx : Nat) :
-    RunSpec.ctxsOfSources c (s1 :: rest) idx
-      = RunSpec.ctxsOf c (s1.items.length + 2) (Reader.ofItems s1.items s1.name) 0 idx
-        ++ RunSpec.ctxsOfSources c rest
-            (idx + (RunSpec.ctxsOf c (s1.items.length + 2) (Reader.ofItems s1.items s1.name) 0 idx).length) := rfl
+/-- the range delimits the value's text (and the single byte after it) when the call starts without a look-ahead
+byte; with one — a value that TOUCHES the previous token — the range misses the value's first byte: that is the
+known finding F11, stated exactly by `Loc.range_contains_text_general` -/
+theorem range_contains_text (r : Reader) (hc : r.cur = none) {x : Option JV} {r' : Reader}
+    (h : r.nextJson = (.ok x, r')) :
+    ∃ consumed, r.rest = consumed ++ r'.pending ∧
+      r.rest.take (r'.pulled - r.pulled) = consumed ++ curItems r' := Loc.range_contains_text r hc h
 
 end Jawk.C17
